@@ -405,3 +405,23 @@ Proof.
       apply negb_true_iff. destruct (existsb (in_mount_dirs c) (users_of um (l_name x))) eqn:Eu; [|reflexivity].
       apply in_mount_dirs_mb0 in Eu. unfold usersb in Hu. congruence.
 Qed.
+
+(* ------------------------------------------------------------------ every form of the command *)
+Definition C03_hyp (c : cfgT) (w : wobs) (n : bytes) (all : bool) : bool :=
+  match n, all with
+  | [], false => wf_table (ks_tab (wo_ks w))
+  | _ :: _, false => wf_kernel (wo_ks w) && wf_layers c (layers_on_disk c (wo_fs w))
+  | [], true => C03_all_hyp c w
+  | _ :: _, true => true
+  end.
+
+Theorem C03_model_proof : forall c w e um n all, plain_env e = true -> C03_hyp c w n all = true ->
+  C03.step_spec c w (view_of_model c w e (CUmount n all) um) = true.
+Proof.
+  intros c w e um n all He Hh. destruct n as [|a r], all; cbn [C03_hyp] in Hh.
+  - now apply C03_all_proof.
+  - now apply C03_noargs_proof.
+  - destruct (view_fields c w e (CUmount (a :: r) true) um) as (E1 & E2 & _).
+    unfold C03.step_spec. rewrite E1, E2, He. reflexivity.
+  - apply andb_true_iff in Hh as [H1 H2]. now apply C03_single_proof.
+Qed.
